@@ -35,7 +35,9 @@ variable {ms : MacroSem} (hms : MsOK ms) {c : Ctx} (hc : c.ok = true) (env : CEn
 include hms hc
 
 /-- Induction on the C fuel.  For statements, statement lists and loops: the repaired lowering succeeds too (with the
-    same `TSt`), and from related states both effects run to ONE IL state, related to the final C state. -/
+    same `TSt`), and from related states both effects run to ONE IL state, related to the final C state.
+    (`Inv`: the two-state invariant of `Lemmas/StmtState.lean`; the IL local of an immediate letter holds the C side's
+    CURRENT immediate, the `imm` components themselves are not related.) -/
 theorem stmt_main_sem : ∀ f : Nat,
     (∀ s st eff st' σC σIL σC', compileStmt (codeEnv env) st s = .ok (eff, st') → CarveSSem env s = true →
         WFStmt c s = true → (exprsOf s).all (WFES c) = true → Inv c σC σIL → execC ms f s σC = .ok σC' →
@@ -388,7 +390,8 @@ theorem progImms_asCode {ms : MacroSem} (hms : MsOK ms) {c : Ctx} (hc : c.ok = t
 
 /-- **T2-semantic for whole behaviours**: on the semantic carve-out the repaired lowering succeeds whenever the lowering
     as coded does, and from every initial state in which the C behaviour terminates the two effects (each with its
-    `imm_assign` prologue) run to the SAME IL state, which is related to the final C state. -/
+    `imm_assign` prologue) run to the SAME IL state, which is related to the final C state (`StRel`: everything
+    observable; not the immediates, see `certifiedSem_correct`). -/
 theorem prog_sem_both {ms : MacroSem} (hms : MsOK ms) {c : Ctx} (hc : c.ok = true)
     {prog : List CStmt} {eff : ILEffect}
     (hcarve : CarveSsSem { assigned := assignedOfList prog, cfg := Cfg.fixed } prog = true)
@@ -431,7 +434,8 @@ theorem prog_sem_both {ms : MacroSem} (hms : MsOK ms) {c : Ctx} (hc : c.ok = tru
   simp only [hefs', bind, Except.bind]
 
 /-- **End to end on the semantic carve-out** (`prog_correct_asCode_closed` of Props/C05Compose.lean with `CarveSs`
-    replaced by `CarveSsSem`): the lowering AS CODED preserves the C semantics of a whole behaviour. -/
+    replaced by `CarveSsSem`): the lowering AS CODED preserves the C semantics of a whole behaviour (`StRel` of the final
+    states: everything observable; not the immediates, see `certifiedSem_correct`). -/
 theorem prog_correct_asCode_sem_closed {ms : MacroSem} (hms : MsOK ms) {c : Ctx} (hc : c.ok = true)
     {prog : List CStmt} {eff : ILEffect}
     (hcarve : CarveSsSem { assigned := assignedOfList prog, cfg := Cfg.fixed } prog = true)
@@ -448,7 +452,8 @@ theorem prog_correct_asCode_sem_closed {ms : MacroSem} (hms : MsOK ms) {c : Ctx}
     hybrid-free programs satisfying the side condition `HSameProg Cfg.asCode` of `Props/CompileHEqv.lean`.
     (`HSameProg_of_carve` derives that side condition from the SYNTACTIC carve-out and `NoDeadVarlProg`; its proof uses
     the carve-out only to exclude a folded comparison as operand of a foldable operator.  Here the side condition is a
-    hypothesis, checked by evaluation in the certificate.) -/
+    hypothesis, checked by evaluation in the certificate.)  `StRel` does not relate the immediates, see
+    `certifiedSem_correct`. -/
 theorem progH_correct_asCode_sem_closed {ms : MacroSem} (hms : MsOK ms) {c : Ctx} (hc : c.ok = true)
     {prog : List CStmt} {eff : ILEffect}
     (hcarve : CarveSsSem { assigned := assignedOfList prog, cfg := Cfg.fixed } prog = true)
@@ -466,7 +471,11 @@ theorem progH_correct_asCode_sem_closed {ms : MacroSem} (hms : MsOK ms) {c : Ctx
     `certifiedSem`): if the semantic certificate of a behaviour holds and the lowering as coded returns an effect, then
     from every initial machine state (no locals yet, source operands unwritten) in which the C behaviour terminates,
     the effect executes to a state with the same registers, `.new` bank, memory, store log, jump flag/target and
-    slot-cancel flag. -/
+    slot-cancel flag.
+    The final-state relation `StRel` does NOT relate the immediates (`MState.imm`): they are an input of the instruction,
+    not an observable output, and a behaviour may assign to them (`riV = riV & ~3`: the C side then holds the new value
+    in `imm`, the IL side in the local of the letter).  For behaviours without such an assignment equal immediates
+    follow separately (`C05.imm_eq_of_noImmTargets`). -/
 theorem certifiedSem_correct {ms : MacroSem} (hms : MsOK ms) {prog : List CStmt} {eff : ILEffect}
     (hcert : certifiedSem prog = true) (hcomp : compileProgH Cfg.asCode prog = .ok eff)
     {σ0 σC' : MState} (hloc : σ0.locals = []) (hsrcs : ∀ ov ∈ (ctxOf prog).srcs, σ0.written ov = false)
@@ -475,6 +484,16 @@ theorem certifiedSem_correct {ms : MacroSem} (hms : MsOK ms) {prog : List CStmt}
   simp only [certifiedSem, CarveProgSem, Bool.and_eq_true] at hcert
   obtain ⟨⟨⟨⟨⟨hok, hwf⟩, hwfe⟩, hcarve⟩, hfree⟩, hsame⟩ := hcert
   exact progH_correct_asCode_sem_closed hms hok hcarve hfree hsame hcomp (fun _ => Iff.rfl) hwf hwfe hloc hsrcs hex
+
+/-- `certifiedSem_correct` with the conclusion it had before immediates became assignable: for a behaviour that assigns
+    to no immediate the two final states also have the same immediates. -/
+theorem certifiedSem_correct_imm {ms : MacroSem} (hms : MsOK ms) {prog : List CStmt} {eff : ILEffect}
+    (hcert : certifiedSem prog = true) (hnoimm : noImmTargets prog = true) (hcomp : compileProgH Cfg.asCode prog = .ok eff)
+    {σ0 σC' : MState} (hloc : σ0.locals = []) (hsrcs : ∀ ov ∈ (ctxOf prog).srcs, σ0.written ov = false)
+    (hex : ExecCs ms prog σ0 σC') :
+    ∃ σIL', ExecIL ms eff σ0 σIL' ∧ StRel σC' σIL' ∧ σC'.imm = σIL'.imm := by
+  obtain ⟨σIL', hx, hrel⟩ := certifiedSem_correct hms hcert hcomp hloc hsrcs hex
+  exact ⟨σIL', hx, hrel, imm_eq_of_noImmTargets hnoimm hex hx⟩
 
 /-- for semantically certified behaviours the two lowering models coincide -/
 theorem certifiedSem_models_agree {prog : List CStmt} (hcert : certifiedSem prog = true) :
